@@ -205,3 +205,65 @@ Proof.
   change (cx (0, 0, 0)%nat) with 0%nat. change (cy (0, 0, 0)%nat) with 0%nat.
   change (cz (0, 0, 0)%nat) with 0%nat. cbn [pow]. ring.
 Qed.
+
+(* ------------------------------------------------------------------ *)
+(* 4. derivatives of the right-hand primitive, one axis                *)
+(* ------------------------------------------------------------------ *)
+(* the k-th derivative of (x-B)^j e^{-be (x-B)^2}: polynomial [u] of Model/Eval.v times the Gaussian
+   (Gauss/DerivBridge.v, translated to the centre B) *)
+Lemma cg1_is_derive_n be B j k x :
+  is_derive_n (cg1 be B j) k x (u RKd be j k (x - B) * exp (- be * (x - B) ^ 2)).
+Proof.
+  apply (is_derive_n_comp_trans (fun t => t ^ j * exp (- be * t ^ 2)) k x (- B)).
+  apply nth_derivative.
+Qed.
+
+Lemma cg1_Derive_n be B j k x :
+  Derive_n (cg1 be B j) k x = u RKd be j k (x - B) * exp (- be * (x - B) ^ 2).
+Proof. apply is_derive_n_unique. apply cg1_is_derive_n. Qed.
+
+Lemma D1_0 A B al be i j : D1 RK A B al be 0 i j = Sfun RK A B al be i j.
+Proof. reflexivity. Qed.
+Lemma D1_S A B al be k i j :
+  D1 RK A B al be (S k) i j
+  = INR j * D1 RK A B al be k i (j - 1) - 2 * be * D1 RK A B al be k i (S j).
+Proof.
+  unfold D1. cbn [iterop]. unfold Bop at 1. rewrite ofnat_R.
+  change (fmul RK) with Rmult. change (fadd RK) with Rplus. change (fsub RK) with Rminus.
+  change (f1 RK) with 1. ring.
+Qed.
+
+Lemma u_integral (al be A B : R) (i : nat) : 0 < al -> 0 < be -> forall k j,
+  gint (fun x => cg1 al A i x * (u RKd be j k (x - B) * exp (- be * (x - B) ^ 2)))
+       (D1 RK A B al be k i j).
+Proof.
+  intros Ha Hb. induction k as [|k IH]; intro j.
+  - refine (gint_ext _ _ _ _ _ (eq_sym (D1_0 A B al be i j)) (Sfun_integral al be A B i j Ha Hb)).
+    intro x. rewrite uR_0. reflexivity.
+  - rewrite D1_S.
+    refine (gint_ext _ _ _ _ _ eq_refl
+              (gint_minus _ _ _ _ (gint_scal (INR j) _ _ (IH (j - 1)%nat))
+                                  (gint_scal (2 * be) _ _ (IH (S j))))).
+    intro x. cbv beta. rewrite (uR_S be j k). destruct j as [|j'].
+    + cbn [INR]. ring.
+    + rewrite ofnat_INR. replace (S j' - 1)%nat with j' by lia. ring.
+Qed.
+
+(* int phi_a(x) d^k/dx^k phi_b(x) dx = (Bop beta)^k Sfun (i, j): the spec of the differential-operator
+   tables (C02_diffop_is_derivative_of_right), for EVERY order k *)
+Theorem deriv_1d_integral (al be A B : R) (k i j : nat) : 0 < al -> 0 < be ->
+  gint (fun x => cg1 al A i x * Derive_n (cg1 be B j) k x) (D1 RK A B al be k i j).
+Proof.
+  intros Ha Hb.
+  refine (gint_ext _ _ _ _ _ eq_refl (u_integral al be A B i Ha Hb k j)).
+  intro x. now rewrite cg1_Derive_n.
+Qed.
+
+(* first moment about the coordinate origin (used by the angular momentum) *)
+Theorem moment1_1d_integral (al be A B : R) (i j : nat) : 0 < al -> 0 < be ->
+  gint (fun x => cg1 al A i x * (x * cg1 be B j x)) (M1o RK A B al be i j).
+Proof.
+  intros Ha Hb.
+  refine (gint_ext _ _ _ _ _ eq_refl (base_T1_integral al be A B 0 1 i j Ha Hb)).
+  intro x. cbn [pow]. ring.
+Qed.
